@@ -90,6 +90,23 @@ Theorem C37_parts_chain_update : forall ops assigns,
 Proof. exact chain_update_ok. Qed.
 Print Assumptions C37_parts_chain_update.
 
+(* instance-level conditional update (instance.iff(...).update(...)): the UPDATE carries all requested conditions; the follow-up DELETE of the
+   nulled columns carries exactly the requested conditions on columns the UPDATE did not rewrite (by db field name), in order *)
+Theorem C37_parts_instance_update : forall keys conds assigns nulled,
+  forallb (wf_add Update PWhere) keys = true -> forallb (wf_add Delete PWhere) keys = true ->
+  forallb (wf_add Update PCond) conds = true -> forallb (wf_add Delete PCond) conds = true ->
+  forallb (wf_add Update PAssign) assigns = true ->
+  let asg := filter (fun c => negb (clause_size c =? 0)) assigns in
+  let u := fst (inst_update_stmts keys conds assigns nulled) in
+  let d := snd (inst_update_stmts keys conds assigns nulled) in
+  map snd (s_cond u) = conds /\ map snd (s_assign u) = asg /\ map snd (s_where u) = keys /\
+  map snd (s_cond d) = delete_conds conds (map clause_field asg) /\ map snd (s_field d) = map CDelField nulled /\
+  map snd (s_where d) = keys /\
+  (forall c, In c (map snd (s_cond d)) <-> In c conds /\ ~ In (clause_field c) (map clause_field asg)) /\
+  bij u /\ bij d.
+Proof. exact inst_update_ok. Qed.
+Print Assumptions C37_parts_instance_update.
+
 (* the code before the fix: ListUpdateClause/SetUpdateClause/MapUpdateClause rendered (and bound) an empty add/remove/append/prepend
    although get_context_size() counted 0 for it.  With that rendering the bijection fails: the witness replayed by corpus/C37. *)
 Definition old_list_render (i : Z) (f : name) (v : option (list Z)) (op : option listop) (prev : option (list Z)) : list frag :=
